@@ -13,6 +13,7 @@ import (
 	"fmt"
 	"math/big"
 	"math/rand"
+	"os"
 	"sort"
 	"strings"
 	"testing"
@@ -44,6 +45,7 @@ import (
 
 	fxcontract "github.com/functionx/fx-core/v8/contract"
 	fxtypes "github.com/functionx/fx-core/v8/types"
+	migratemodule "github.com/functionx/fx-core/v8/x/migrate"
 	migratetypes "github.com/functionx/fx-core/v8/x/migrate/types"
 )
 
@@ -1541,6 +1543,26 @@ func (w *world) opMigrate() {
 	w.migrate(fromID, fromAddr, to, signer, order, sig, mode)
 }
 
+// opGenesisRoundTrip (only with VERIF_C14_GENESIS=1, see fixes/C14-genesis-import.md): the migrate module's state is exported
+// and imported again, as a chain restarted from an exported genesis does; the addresses already used in a migration must
+// still be marked
+func (w *world) opGenesisRoundTrip() {
+	am := migratemodule.NewAppModule(w.s.App.MigrateKeeper)
+	exported := am.ExportGenesis(w.s.Ctx, w.s.App.AppCodec())
+	store := w.s.Ctx.KVStore(w.s.App.GetKey(migratetypes.StoreKey))
+	for _, kv := range hx.RawPrefix(w.s.Ctx, w.s.App.GetKey(migratetypes.StoreKey), nil) {
+		store.Delete(kv[0])
+	}
+	am.InitGenesis(w.s.Ctx, w.s.App.AppCodec(), exported)
+	w.out.Count("genesis-roundtrip")
+	for id := range w.gone {
+		if a := w.byID[id]; a != nil && !w.s.App.MigrateKeeper.HasMigrateRecord(w.s.Ctx, a.addr) {
+			w.out.Violate("genesis: a migration record written by an accepted migration is exported by ExportGenesis but not restored by InitGenesis: the address can take part in a migration again after export/import")
+			return
+		}
+	}
+}
+
 // opUnbondTime: governance changes the staking unbonding time (a real MsgUpdateParams by the gov authority); entries keep
 // the completion time they were created with, so afterwards a later entry may complete before an earlier one
 func (w *world) opUnbondTime(secs int64) {
@@ -2006,6 +2028,9 @@ func (w *world) randomOp() {
 			w.opUnbondTime(hx.Pick(w.rng, []int64{30, 100, 300, 300}))
 		}
 	case r < 96:
+		if os.Getenv("VERIF_C14_GENESIS") == "1" && len(w.hist) > 0 && w.rng.Intn(3) == 0 {
+			w.opGenesisRoundTrip()
+		}
 		w.opMigrate()
 	default:
 		w.opChain()
